@@ -154,7 +154,7 @@ class B{n}(Base{n}):
 
 @dataclass
 class C{n}:
-    kind: Literal["c"]
+    kind: Literal["c", "cc"]
     w: str = "w"
 
 @dataclass
@@ -182,7 +182,7 @@ def check_discriminated(env, n):
         exec(compile(PRELUDE + DISC.format(n=n), f"<{name}>", "exec"), mod.__dict__)
         A, B, C, E = (getattr(mod, f"{c}{n}") for c in "ABCE")
         vals = [(mod.T1, A(rng.randint(0, 9), ["a"] * rng.randint(0, 2))), (mod.T1, B(rng.choice([None, 1.5]))), (mod.T2, [A(1), B(), A(2, ["q"])]),
-                (mod.T3, C("c", "ww")), (mod.T3, E(4)), (mod.T4, {"k": C("c"), "l": E()})]
+                (mod.T3, C("c", "ww")), (mod.T3, C("cc", "x")), (mod.T3, E(4)), (mod.T4, {"k": C("cc"), "l": E()})]
         for T, v in vals:
             s = harness.call(serialize, T, v)
             env.count("discriminated_round_trips")
